@@ -154,6 +154,10 @@ def run(ctx, P):
                 c.timestamp = ctx.const_time(GRID0 + 60 * (i + 1 + 4))      # a hole of two whole T2 buckets after the second candle
     cs, later = cs_all[:n], cs_all[n]          # `later`: one more candle appended after A has been removed
     mk = lambda name, kw: build(name, dict(kw))
+    if mk(a, akw).name == mk(b, bkw).name:
+        # the parameter that differs is not part of the generated name (ROC(period=2) / ROC(period=3) are both 'ROC'): the
+        # property speaks of members with distinct names, which the user then provides with a suffix
+        akw = dict(akw, name_suffix="a2")
     alone_later = Hexital("alone", clone(cs), [mk(b, bkw)])
     alone_later.calculate()
     alone_later.append(clone([later])[0])
@@ -191,6 +195,14 @@ def run(ctx, P):
         ctx.equal(f"A restored after purge+calculate ({order})", hx.indicator(aname).as_list(), a_ref)
         hx.recalculate(aname)
         check(f"after recalculate(A) ({order})", hx)
+        # the roles swapped within the same history: maintenance aimed at B after maintenance aimed at A
+        hx.purge(bname)
+        ctx.equal(f"A.as_list after purge(B) that follows purge(A) ({order})", hx.indicator(aname).as_list(), a_ref)
+        hx.calculate()
+        check(f"after purge(B)+calculate ({order})", hx)
+        hx.recalculate(bname)
+        ctx.equal(f"A.as_list after recalculate(B) ({order})", hx.indicator(aname).as_list(), a_ref)
+        check(f"after recalculate(B) ({order})", hx)
         hx.remove_indicator(aname)
         check(f"after remove_indicator(A) ({order})", hx)
         hx.calculate()
